@@ -368,7 +368,8 @@ def evaluate(mod, cases):
     all_ops = []
     for c in cases:
         ia = mod.impl(c)
-        tb = [a for a in ia if isinstance(a, str) and (a.startswith("Error:TieBroken:") or a in ("Error:ImportError", "Error:ModuleNotFoundError"))]
+        tb = [a[a.index("Error:TieBroken:"):] if "Error:TieBroken:" in a else a for a in ia
+              if isinstance(a, str) and ("Error:TieBroken:" in a or a in ("Error:ImportError", "Error:ModuleNotFoundError"))]
         if tb:
             # the harness could not reach an anchored function / private member (renamed or moved by a refactor): for
             # this case the correspondence cannot be established.  The remaining cases are still evaluated (they are
